@@ -209,10 +209,12 @@ func (b *batchTracker) record(itemTrackers []*itemTracker, err error, isClientEr
 	// * succeeded, failedClient, failedServer and remaining guarantee that the "return decision" is made atomically
 	// avoiding race condition
 	for _, it := range itemTrackers {
+		verifYield("batch.record.item")
 		if err != nil {
 			// Track the number of errors by error family, and if it exceeds maxFailures
 			// shortcut the waiting rpc.
 			errCount := it.recordError(err, isClientError)
+			verifYield("batch.record.counted")
 			// We should return an error if we reach the maxFailure (quorum) on a given error family OR
 			// we don't have any remaining instances to try. In the following we use ClientError and ServerError
 			// to denote errors, for which isClientError() returns true and false respectively.
@@ -238,6 +240,7 @@ func (b *batchTracker) record(itemTrackers []*itemTracker, err error, isClientEr
 			// If we successfully process items in minSuccess instances,
 			// then wake up the waiting rpc, so it can return early.
 			succeeded := it.succeeded.Inc()
+			verifYield("batch.record.counted")
 			if succeeded == int32(it.minSuccess) {
 				if b.rpcsPending.Dec() == 0 {
 					b.done <- struct{}{}
